@@ -265,6 +265,7 @@ func (w *World) lemmaObligations(keep func(l *Lemma) bool) []*Obligation {
 			}()
 			vc := &VC{spec: &FuncSpec{Props: lm.Props}, initHeap: map[string]*Term{}, allocBase: Var("alloc_0", SInt)}
 			x.vc = vc
+			x.n = 0
 			st := &State{heap: map[string]*Term{}, alloc: vc.allocBase, cells: map[cellKey]*Term{}, globals: map[*ssa.Global]*Term{}, ghost: map[string]*Term{}, freshID: map[string]bool{}}
 			vc.entry = st
 			env := &Env{x: x, st: st, old: st, vars: map[string]SV{}, pkg: x.pkgByPath[lm.Pkg], allocOld: vc.allocBase, fuelSet: true, fuel: lm.Unfold}
